@@ -124,6 +124,11 @@ func modeC03(thorough bool) {
 		in.send("udp", "", jq, 4*time.Second, nil)
 		par(6, func(i int) { in.send("udp", "", mkq(fmt.Sprintf("%s.r0t60d0.z1.test.", uniq())), 3*time.Second, nil) })
 	}
+	// a query whose response cannot be delivered (source port 0: sendmsg fails): the listener keeps answering
+	if in.sendFromPort0(mkq(fmt.Sprintf("%s.r0t60d0.z1.test.", uniq())).wire()) {
+		time.Sleep(50 * time.Millisecond)
+		par(6, func(i int) { in.send("udp", "", mkq(fmt.Sprintf("%s.r0t60d0.z1.test.", uniq())), 3*time.Second, nil) })
+	}
 	time.Sleep(100 * time.Millisecond)
 }
 
